@@ -11,7 +11,7 @@ SPEC = {
         {"kind": "SCHED", "type": "(list (action * obs))", "eval": "check_case", "per_shard": 150},
     ],
     "classes": {},
-    "n_quick": 500, "n_thorough": 15000,
+    "n_quick": 500, "n_thorough": 2000,
     "level": "proof",
     "what_violation": ("the multipart/mixed body is not a well-formed multipart stream of the arrived responses in order "
                        "(heartbeats as {} parts, closing delimiter once and last, nothing after the end)"),
